@@ -632,6 +632,11 @@ def run_cvrs(vendor, rows, max_cards, spec, sample, rng):
             sol.append((BAD, (BAD, BAD)))
     case["out"] = ("ok", [[e(x) for x in c] for c in cards], sol,
                    [(pos.get(id(c), BAD), e(c.id)) for c in cs], [e(c.id) for c in mv])
+    real_tabs = {}
+    for r in rows:
+        real_tabs.setdefault(str(r["batch"]), set()).add(str(r["tab"]))
+    case["real_tabs"] = real_tabs
+    case["raw_cards"] = [[str(x) for x in c] for c in cards]
     case["raw"] = {"card_ids": [c[5] if vendor == "D" else c[-1] for c in cards], "so": {k: dict(v) for k, v in so.items()},
                    "cs_pos": [pos.get(id(c)) for c in cs], "mv": [(c.id, c.phantom, c.votes) for c in mv]}
     return case
@@ -652,6 +657,13 @@ def oracle_cvrs(case):
             bad.append("sample_from_cvrs: sample_order does not record identifier -> (selection order, serial)")
         if sorted(raw["card_ids"]) != sorted(ids[s] for s in sample):
             bad.append("sample_from_cvrs: card identifiers do not match the sampled CVRs")
+    if case["vendor"] == "H":
+        # card lookup: a real card (row [tabulator, batch, number, id]) is located on the tabulator of a REAL manifest
+        # batch of that name, never on the batch appended for phantoms (whichever real row wins among equal names)
+        for c in case.get("raw_cards", []):
+            if len(c) == 4 and c[1] in case["real_tabs"] and c[0] not in case["real_tabs"][c[1]]:
+                bad.append("Hart.sample_from_cvrs: a real card is reported on a tabulator that no real manifest batch of its name has")
+                break
     if [(i, p, v) for i, p, v in raw["mv"]] != [(ids[s], True, {}) for s in sample if ph[s]]:
         bad.append("sample_from_cvrs: phantom manual records are not exactly the sampled phantom CVRs")
     return bad
